@@ -400,6 +400,57 @@ Section Sbx.
 End Sbx.
 
 (* ---------------------------------------------------------------------------------------------- *)
+(* Transfer: the C08 box theorems (Props/C08.v), stated about the GENERATED functions, i.e. about what the
+   source says on this run: for every strict weak order `ltb`, every arithmetic, every `pow`, every random tape,
+   a parent inside the declared box gives a child of the same dimension inside the box. *)
+From Artap Require Import Base.Ord Proofs.VariationProofs Props.C08.
+
+Section Transfer.
+  Context {T : Type} (ltb : T -> T -> bool) (H : SWO ltb).
+
+  Theorem pm_mutate_gen_in_box : forall add sub mul div c0 c05 c1 c2 unif pw prob dist params parent iteration k child,
+    Forall (wf ltb) params -> in_box ltb params parent ->
+    pm_mutate_gen ltb add sub mul div c0 c05 c1 c2 (@bnd T) unif pw parent iteration k params prob dist = Some child ->
+    length child = length parent /\ in_box ltb params child.
+  Proof.
+    intros add sub mul div c0 c05 c1 c2 unif pw prob dist params parent iteration k child Hwf Hin E.
+    rewrite pm_mutate_gen_eq_model in E. exact (C08_pm_in_box ltb H _ _ _ _ _ Hwf Hin E).
+  Qed.
+
+  Theorem uniform_mutate_gen_in_box : forall add sub mul c0 c05 c1 unif rnd prob pert params parent iteration k child,
+    Forall (wf ltb) params -> in_box ltb params parent ->
+    uniform_mutate_gen ltb add sub mul c0 c05 c1 (@bnd T) unif rnd parent iteration k params prob pert = Some child ->
+    length child = length parent /\ in_box ltb params child.
+  Proof.
+    intros add sub mul c0 c05 c1 unif rnd prob pert params parent iteration k child Hwf Hin E.
+    rewrite uniform_mutate_gen_eq_model in E. exact (C08_uniform_in_box ltb H _ _ _ _ _ Hwf Hin E).
+  Qed.
+
+  Theorem nonuniform_mutate_gen_in_box : forall leb sub mul div c0 c05 c1 unif rnd pw prob pert maxit iteration params parent k child,
+    Forall (wf ltb) params -> in_box ltb params parent ->
+    nonuniform_mutate_gen ltb leb sub mul div c0 c05 c1 (@bnd T) unif rnd pw parent iteration k params prob pert maxit = Some child ->
+    length child = length parent /\ in_box ltb params child.
+  Proof.
+    intros leb sub mul div c0 c05 c1 unif rnd pw prob pert maxit iteration params parent k child Hwf Hin E.
+    rewrite nonuniform_mutate_gen_eq_model in E. exact (C08_nonuniform_in_box ltb H _ _ _ _ _ Hwf Hin E).
+  Qed.
+
+  (* SBX: the draws are comparable with 0.5 and with the probability (numbers, not NaN) *)
+  Theorem sbx_cross_gen_in_box : forall leb add sub mul div neg absT c05 c1 c2 rnd pw prob dist eps params p1 p2 k x1 x2,
+    (forall j, leb (rnd j) c05 = negb (ltb c05 (rnd j))) -> (forall j, leb (rnd j) prob = negb (ltb prob (rnd j))) ->
+    Forall (wf ltb) params -> in_box ltb params p1 -> in_box ltb params p2 ->
+    sbx_cross_gen ltb leb add sub mul div neg absT c05 c1 c2 (@bnd T) rnd pw p1 p2 eps k params prob dist = Some [x1; x2] ->
+    length x1 = length p1 /\ length x2 = length p2 /\ in_box ltb params x1 /\ in_box ltb params x2.
+  Proof.
+    intros leb add sub mul div neg absT c05 c1 c2 rnd pw prob dist eps params p1 p2 k x1 x2 Hh Hp Hwf Hin1 Hin2 E.
+    rewrite (sbx_cross_gen_eq_model ltb leb add sub mul div neg absT c05 c1 c2 rnd pw prob dist eps Hh Hp) in E
+      by (rewrite (in_box_length ltb _ _ Hin1) || rewrite (in_box_length ltb _ _ Hin2); apply Nat.le_refl).
+    destruct (sbx_cross ltb _ c05 prob params p1 p2 _) as [[a b]|] eqn:E'; cbn in E; [|discriminate].
+    injection E as <- <-. exact (C08_sbx_in_box ltb H _ _ _ _ _ _ _ _ _ Hwf Hin1 Hin2 E').
+  Qed.
+End Transfer.
+
+(* ---------------------------------------------------------------------------------------------- *)
 (* The binary64 instances (they pin operators and literals: the Sections above abstract them positionally):
    the generated instance at PrimFloat equals the model at PrimFloat.ltb, the order of the C08 float theorems,
    on the tape built with IEEE-754 + - * / and the literals 0, 0.5, 1, 2. *)
